@@ -62,19 +62,51 @@ struct Case {
                 cfg.max[k] = c;
             }
             for (std::size_t j = 0; j < M; ++j) cfg.default_value[j] = -1000.5f - (float)j - (float)b;
+            V bc_lo = 0, bc_hi = 0;
+            float bc_def = 0;
             if (b % 4 == 3) {
                 // the way users write a cubic box: one scalar per member, broadcast by covfie::array's scalar constructor
-                V lo = pick_bound<V>(rng), hi = pick_bound<V>(rng);
-                if (hi < lo) std::swap(lo, hi);
-                cfg.min = typename field_t::coordinate_t(lo);
-                cfg.max = typename field_t::coordinate_t(hi);
-                cfg.default_value = typename field_t::output_t(-77.25f - (float)b);
+                bc_lo = pick_bound<V>(rng), bc_hi = pick_bound<V>(rng);
+                if (bc_hi < bc_lo) std::swap(bc_lo, bc_hi);
+                if (bc_lo == 0) bc_lo = (V)1;
+                if (bc_hi < bc_lo) bc_hi = bc_lo;
+                bc_def = -77.25f - (float)b;
+                cfg.min = typename field_t::coordinate_t(bc_lo);
+                cfg.max = typename field_t::coordinate_t(bc_hi);
+                cfg.default_value = typename field_t::output_t(bc_def);
+            }
+            // what the user meant: kept apart from the configuration object handed to the library
+            V want_min[N], want_max[N];
+            float want_def[M];
+            for (std::size_t k = 0; k < N; ++k) {
+                want_min[k] = cfg.min[k];
+                want_max[k] = cfg.max[k];
+            }
+            for (std::size_t j = 0; j < M; ++j) want_def[j] = cfg.default_value[j];
+            if (b % 4 == 3) {
+                for (std::size_t k = 0; k < N; ++k) {
+                    want_min[k] = bc_lo;
+                    want_max[k] = bc_hi;
+                }
+                for (std::size_t j = 0; j < M; ++j) want_def[j] = bc_def;
             }
             vh::set_case("%s box#%u", name.c_str(), b);
             field_t f(covfie::make_parameter_pack(std::move(cfg), std::monostate{}));
             typename field_t::view_t view(f);
             probe::NdLog & log = f.backend().get_backend().log();
-            const auto conf = f.backend().get_configuration();
+            auto conf = f.backend().get_configuration();
+            {
+                bool same = true;
+                for (std::size_t k = 0; k < N; ++k) same = same && conf.min[k] == want_min[k] && conf.max[k] == want_max[k];
+                for (std::size_t j = 0; j < M; ++j) same = same && conf.default_value[j] == want_def[j];
+                vh::ev();
+                if (!same) vh::viol(name + ":box-not-as-configured", "configured box=[" + vh::jarr(want_min, N) + "," + vh::jarr(want_max, N) + "] default=" + vh::jarr(want_def, M) + " but the field holds [" + vh::jarr(conf.min, N) + "," + vh::jarr(conf.max, N) + "] default=" + vh::jarr(conf.default_value, M));
+                for (std::size_t k = 0; k < N; ++k) {
+                    conf.min[k] = want_min[k];
+                    conf.max[k] = want_max[k];
+                }
+                for (std::size_t j = 0; j < M; ++j) conf.default_value[j] = want_def[j];
+            }
 
             // per axis: the catalogue around each bound
             std::vector<V> cat[N];
